@@ -905,6 +905,172 @@ samples between two drains is written with 0 occurrences (confirmed on the real 
 the entry-level count equals the drained count only below 2^32 (assumption of `props/C20.json`). -/
 example : bucketsOf ⟨1, []⟩ [Obs.bucket ⟨1, []⟩ 7 4294967296] = [OV.repeated 7 0] := by decide
 
+
+/-! ## C20, the ORDER inside a readout: walk first, unit map afterwards -/
+
+theorem runTagged_state (s : State) (tagged : List (Bool × Ev)) :
+    (runTagged s tagged).1 = (run s (tagged.map (·.2))).1 := by
+  induction tagged generalizing s with
+  | nil => rfl
+  | cons p ps ih => obtain ⟨b, e⟩ := p; simp only [runTagged, List.map_cons, run_cons, ih]
+
+/-- a readout that is not interleaved with anything is the all-`true` tagging -/
+theorem runTagged_all (s : State) (evs : List Ev) : runTagged s (evs.map (fun e => (true, e))) = run s evs := by
+  induction evs generalizing s with
+  | nil => rfl
+  | cons e es ih => simp only [List.map_cons, runTagged, run_cons, ih, ↓reduceIte]
+
+theorem lastDescribe_append (nm cur : Nat) (a b : List Ev) :
+    lastDescribe nm cur (a ++ b) = lastDescribe nm (lastDescribe nm cur a) b := by
+  induction a generalizing cur with
+  | nil => rfl
+  | cons e es ih => cases e <;> simp only [List.cons_append, lastDescribe, ih]
+
+theorem lastDescribe_spec (nm cur u : Nat) (a c : List Ev) (hc : ∀ u', Ev.describe nm u' ∉ c) :
+    lastDescribe nm cur (a ++ Ev.describe nm u :: c) = u := by
+  rw [lastDescribe_append]
+  simp only [lastDescribe, ↓reduceIte]
+  generalize lastDescribe nm cur a = x
+  clear a
+  induction c generalizing u with
+  | nil => rfl
+  | cons e es ih =>
+    have hes : ∀ u', Ev.describe nm u' ∉ es := fun u' h => hc u' (List.mem_cons_of_mem _ h)
+    cases e with
+    | describe nm' u2 =>
+      have : ¬ nm' = nm := by intro h; subst h; exact hc u2 (List.mem_cons_self ..)
+      simp only [lastDescribe, this, ↓reduceIte]; exact ih u hes
+    | _ => simp only [lastDescribe]; exact ih u hes
+
+/-- every value written by an interleaved readout carries the unit the map holds for its name when the map is read -/
+theorem walk_item_unit (ez : Bool) (units : Nat → Nat) (obs : List Obs) (it : Item)
+    (h : it ∈ (buildEntryWalk ez units obs).items) : it.unit = units it.name := by
+  simp only [Entry.items, buildEntryWalk, List.mem_append] at h
+  rcases h with (h | h) | h
+  · obtain ⟨k, d, _, _, rfl⟩ := (mem_counterItems _ _ _ _).mp h; rfl
+  · obtain ⟨k, b, _, rfl⟩ := (mem_gaugeItems _ _ _).mp h; rfl
+  · simp only [histItems, List.mem_map] at h
+    obtain ⟨k, _, rfl⟩ := h; rfl
+
+/-- **C20 (unit map is read after the walk).** In every interleaving of a readout's walk with other threads, every
+value the readout writes carries the unit of the last `describe_*` of its name that precedes the *end of the walk* —
+describes that happen while the walk is in progress included. -/
+theorem c20_unit_read_after_walk (s : State) (tagged : List (Bool × Ev)) (it : Item)
+    (h : it ∈ (readoutInterleaved s tagged).items) :
+    it.unit = lastDescribe it.name (s.unitOf it.name) (tagged.map (·.2)) := by
+  have := walk_item_unit _ _ _ it h
+  rw [this, runTagged_state, run_unitOf]
+
+theorem runTagged_append (s : State) (a b : List (Bool × Ev)) :
+    runTagged s (a ++ b) =
+      ((runTagged (runTagged s a).1 b).1, (runTagged s a).2 ++ (runTagged (runTagged s a).1 b).2) := by
+  induction a generalizing s with
+  | nil => simp [runTagged]
+  | cons p ps ih => obtain ⟨m, e⟩ := p; simp only [List.cons_append, runTagged, ih, List.append_assoc]
+
+theorem mem_histKeys (k : Key) (obs : List Obs) : k ∈ histKeys obs ↔ ∃ i c, Obs.bucket k i c ∈ obs := by
+  induction obs with
+  | nil => simp [histKeys]
+  | cons o os ih =>
+    cases o with
+    | bucket k' i c =>
+      simp only [histKeys, List.mem_cons]
+      by_cases hk : k' ∈ histKeys os
+      · simp only [hk, ↓reduceIte, ih]
+        constructor
+        · rintro ⟨i', c', h⟩; exact ⟨i', c', Or.inr h⟩
+        · rintro ⟨i', c', h | h⟩
+          · cases h; exact ih.mp hk
+          · exact ⟨i', c', h⟩
+      · simp only [hk, ↓reduceIte, List.mem_cons, ih]
+        constructor
+        · rintro (rfl | ⟨i', c', h⟩)
+          · exact ⟨i, c, Or.inl rfl⟩
+          · exact ⟨i', c', Or.inr h⟩
+        · rintro ⟨i', c', h | h⟩
+          · cases h; exact Or.inl rfl
+          · exact Or.inr ⟨i', c', h⟩
+    | counter k' d => simp only [histKeys, ih, List.mem_cons]; simp
+    | gauge k' b => simp only [histKeys, ih, List.mem_cons]; simp
+
+/-- **C20 (describe before register, under concurrency).** Take any interleaving in which `describe nm u` happens —
+on any thread — and is the last describe of `nm`; everything after it (`post`) may contain the registration of a
+metric named `nm`, its updates, and steps of this readout's walk. Then every value named `nm` that the readout writes
+carries `u`; and if the walk loads a gauge `k` / swaps a bucket of a histogram `k` named `nm` after the describe, the
+entry does contain that gauge / histogram, under its name, with its labels, with unit `u`. (For a counter the same
+holds whenever its delta is written, by the first clause.) This is what fixes the order "walk, then unit map". -/
+theorem c20_described_before_registered (s : State) (pre post : List (Bool × Ev)) (b : Bool) (nm u : Nat)
+    (hlast : ∀ u', Ev.describe nm u' ∉ post.map (·.2)) :
+    (∀ it ∈ (readoutInterleaved s (pre ++ (b, Ev.describe nm u) :: post)).items, it.name = nm → it.unit = u) ∧
+    (∀ k, k.name = nm → (true, Ev.gload k) ∈ post →
+      ∃ bits, ({ name := nm, dims := k.labels, unit := u, obs := [.floating bits] } : Item) ∈
+        (readoutInterleaved s (pre ++ (b, Ev.describe nm u) :: post)).gauges) ∧
+    (∀ k i, k.name = nm → (true, Ev.hswap k i) ∈ post →
+      ∃ ovs, ({ name := nm, dims := k.labels, unit := u, obs := ovs } : Item) ∈
+        (readoutInterleaved s (pre ++ (b, Ev.describe nm u) :: post)).hists) := by
+  have hunit : (runTagged s (pre ++ (b, Ev.describe nm u) :: post)).1.unitOf nm = u := by
+    rw [runTagged_state, run_unitOf]
+    simp only [List.map_append, List.map_cons]
+    exact lastDescribe_spec nm _ u _ _ hlast
+  -- observations of a tagged step of `post` are among the readout's observations
+  have hmem : ∀ (t : List (Bool × Ev)) (s0 : State) (e : Ev), (true, e) ∈ t →
+      ∃ s1, ∀ o ∈ (step s1 e).2, o ∈ (runTagged s0 t).2 := by
+    intro t
+    induction t with
+    | nil => intro s0 e h; cases h
+    | cons p ps ih =>
+      intro s0 e h
+      obtain ⟨m, e'⟩ := p
+      rcases List.mem_cons.mp h with h | h
+      · cases h
+        exact ⟨s0, fun o ho => by simp only [runTagged, ↓reduceIte]; exact List.mem_append_left _ ho⟩
+      · obtain ⟨s1, hs1⟩ := ih (step s0 e').1 e h
+        exact ⟨s1, fun o ho => by simp only [runTagged]; exact List.mem_append_right _ (hs1 o ho)⟩
+  have hpost : ∀ e, (true, e) ∈ post → ∃ s1, ∀ o ∈ (step s1 e).2,
+      o ∈ (runTagged s (pre ++ (b, Ev.describe nm u) :: post)).2 := by
+    intro e he
+    exact hmem _ s e (List.mem_append_right _ (List.mem_cons_of_mem _ he))
+  refine ⟨?_, ?_, ?_⟩
+  · intro it hit hname
+    have := walk_item_unit _ _ _ it hit
+    rw [this, hname, hunit]
+  · intro k hk hg
+    obtain ⟨s1, hs1⟩ := hpost _ hg
+    have ho := hs1 (Obs.gauge k (s1.gaugeOf k)) (by simp [step])
+    refine ⟨s1.gaugeOf k, ?_⟩
+    simp only [readoutInterleaved, buildEntryWalk]
+    rw [mem_gaugeItems]
+    exact ⟨k, _, ho, by simp [hk, hunit]⟩
+  · intro k i hk hh
+    obtain ⟨s1, hs1⟩ := hpost _ hh
+    have ho := hs1 (Obs.bucket k i (s1.histOf k i)) (by simp [step])
+    have hkeys := (mem_histKeys k _).mpr ⟨i, _, ho⟩
+    refine ⟨bucketsOf k (runTagged s (pre ++ (b, Ev.describe nm u) :: post)).2, ?_⟩
+    simp only [readoutInterleaved, buildEntryWalk, histItems, List.mem_map]
+    exact ⟨k, hkeys, by simp [hk, hunit]⟩
+
+/-- **Witness that the order matters** (this is exactly the change "clone the unit map before the walk"): a readout is
+walking (it has already swapped counter `c`); another thread describes name 7 with unit 4 (Milliseconds), registers
+histogram `h` named 7 and records a sample; the walk then drains `h`. Reading the unit map after the walk writes the
+histogram with unit 4; reading it before the walk writes it with `Unit::None`. -/
+example :
+    let c : Key := ⟨1, []⟩
+    let h : Key := ⟨7, [(0, 1)]⟩
+    let s := (run (State.init false) [.regC c, .inc c 3]).1
+    let tagged : List (Bool × Ev) :=
+      [(true, .swapC c), (false, .describe 7 4), (false, .regH h), (false, .hrec h 1000), (true, .hswap h 111)]
+    (readoutInterleaved s tagged).hists = [⟨7, [(0, 1)], 4, [.repeated 1007 1]⟩] ∧
+    (readoutUnitsFirst s tagged).hists = [⟨7, [(0, 1)], 0, [.repeated 1007 1]⟩] ∧
+    (readoutInterleaved s tagged).counters = [⟨1, [], 0, [.unsigned 3]⟩] := by
+  decide
+
+/-- the sequential `readout` is the interleaved readout with nobody else running (counters and gauges literally; the
+histogram list of the sequential entry is the registry's, that of a walk the histograms it visited) -/
+theorem readout_is_interleaved (s : State) :
+    (readout s).2.counters = (readoutInterleaved s ((readoutEvents s).map (fun e => (true, e)))).counters ∧
+    (readout s).2.gauges = (readoutInterleaved s ((readoutEvents s).map (fun e => (true, e)))).gauges := by
+  simp only [readout, readoutInterleaved, runTagged_all, buildEntry, buildEntryWalk, and_self]
+
 /-- Non-vacuity of the sequential readout: a counter with labels, a described histogram; the second readout reports
 nothing for the counter (zero delta dropped) and an empty histogram. -/
 example :
@@ -943,3 +1109,5 @@ end MetricsRs
 #print axioms MetricsRs.c20_unit_none_is_none
 #print axioms MetricsRs.c20_hist_value_error
 #print axioms MetricsRs.c20_readout_entry
+#print axioms MetricsRs.c20_unit_read_after_walk
+#print axioms MetricsRs.c20_described_before_registered
